@@ -32,7 +32,12 @@ Bigs == { [id |-> "big:int64:max", cls |-> "big", s |-> "9223372036854775807", p
           [id |-> "big:int64:min", cls |-> "big", s |-> "-9223372036854775808", pos |-> FALSE],
           [id |-> "big:uint64:max", cls |-> "big", s |-> "18446744073709551615", pos |-> TRUE],
           [id |-> "big:int32:max", cls |-> "big", s |-> "2147483647", pos |-> TRUE],
-          [id |-> "big:uint32:max", cls |-> "big", s |-> "4294967295", pos |-> TRUE] }
+          [id |-> "big:uint32:max", cls |-> "big", s |-> "4294967295", pos |-> TRUE],
+          (* integral floats beyond 2^24: the float32 that IS 33554448 reads 33554448, not its shortest float32 numeral 33554450 *)
+          [id |-> "big:float32:33554448", cls |-> "big", s |-> "33554448", pos |-> TRUE],
+          [id |-> "big:float32:-67108872", cls |-> "big", s |-> "-67108872", pos |-> FALSE],
+          [id |-> "big:float64:9007199254740993", cls |-> "big", s |-> "9007199254740992", pos |-> TRUE],
+          [id |-> "big:float64:123456789012", cls |-> "big", s |-> "123456789012", pos |-> TRUE] }
 StrTexts == {"", "abc", "1", "1.5", "-2", "007", "0.5", "0", "a%20b", "-0.25", "12abc", ".5", "5.", "+3", "-", ".", "1.5.2",
              (* decimal means decimal: a leading zero is not octal, letters and digit separators make the string non-numeric *)
              "010", "0100", "012", "08", "0b11", "0o17", "1_000", "-010", "0777.5"}
@@ -41,7 +46,7 @@ Strs == {[id |-> "str:" \o t, cls |-> "str", s |-> Unescape(t)] : t \in StrTexts
 Bools == {[id |-> "bool:t", cls |-> "bool", b |-> TRUE], [id |-> "bool:f", cls |-> "bool", b |-> FALSE]}
 Fallbacks == {[id |-> x, cls |-> "fallback"] : x \in
   {"nil", "nilptr:int", "nilptr:string", "nilptr:struct", "nilptr:slice", "nilptr:map", "nilptr:vstringer", "nilptr:pstringer",
-   "nilptr:vnumber", "nilptr:vboolean", "nilptrsafe", "embnilstringer", "embnilmethod",
+   "nilptr:vnumber", "nilptr:vboolean", "nilptrsafe", "embnilstringer", "embnilmethod", "embnilsafe",
    (* nil pointers to types whose methods have POINTER receivers: methods that dereference (a call would panic) and methods
       that tolerate nil and answer something (a call would return it instead of the fallback) *)
    "nilptr:pstrict", "nilptr:pnumber", "nilptr:pboolean", "nilptr:ptolerant", "slice:int:1,2", "slice:int:", "slice:nilint", "map:ss:k=v", "map:nilss", "struct:person",
